@@ -188,6 +188,22 @@ theorem unsubscribe_wrong_type (w : World) (p : Nat) (hal : allowed w p 3 = true
     simp only [World.paddr, World.proto] at hwin; omega
   simp [apiUnsubscribe, Step.read, hal, makeId, Step.seq, Step.mod, World.paddr, World.proto, emit, World.emit, this]
 
+/-- an empty topic list is refused: a SUBSCRIBE / UNSUBSCRIBE must name at least one topic [MQTT-3.8.3-3, 3.10.3-2], so nothing
+    may be written for it (C18; repaired defect F-25) -/
+theorem subscribe_empty_list (w : World) (p : Nat) (q : Int) (hal : allowed w p 2 = true)
+    (hwin : Ents.count w.ents (w.paddr p) .sub < (w.proto p).window) :
+    apiSubscribe p (.list []) q w = (refusedWith w (.retFail .value), none) := by
+  have : ¬ (Ents.count w.ents (w.paddr p) .sub ≥ (w.proto p).window) := by omega
+  simp [apiSubscribe, Step.read, hal, this, emit, World.emit, Step.mod, refusedWith]
+
+theorem unsubscribe_empty_list (w : World) (p : Nat) (hal : allowed w p 3 = true)
+    (hwin : Ents.count w.ents (w.paddr p) .unsub < (w.proto p).window) :
+    apiUnsubscribe p (.list []) w =
+      ({ w with nextId := scanId w 65535 w.nextId, idAllocs := w.idAllocs + 1, log := w.log ++ [.retFail .value] }, none) := by
+  have : ¬ (((w.protos.get? p).getD default).window ≤ Ents.count w.ents ((w.protos.get? p).getD default).addr .unsub) := by
+    simp only [World.paddr, World.proto] at hwin; omega
+  simp [apiUnsubscribe, Step.read, hal, makeId, Step.seq, Step.mod, World.paddr, World.proto, emit, World.emit, this]
+
 /-! Non-vacuity -/
 example : checkConnect { clientId := "c", keepalive := 65536, version := .v311, cleanStart := true } = false := by decide
 example : checkConnect { clientId := "c", keepalive := 65535, version := .v311, cleanStart := true } = true := by decide
